@@ -36,8 +36,16 @@ def harnesses(tier):
                       shapes=[dict(d5, N=n, _tag='N=%d' % n, _witness=('witness: input rejected',) + (('witness: input accepted',) if n >= 2 else ())) for n in ([1, 2, 3, 4] if tier == 'quick' else [1, 2, 3, 4, 5, 6])],
                       opts=['--unwind', '8', '--unwindset', 'set_text.0:17,main.0:18,main.1:18,main.2:18,main.3:18,' + JSTR + '.0:18', '--no-array-field-sensitivity'], timeout=300, mem_gb=8, string_model=True, defines={'STRING_LITERALS_OPAQUE': 1}, inputs=['in', 'off', 'depth0'],
                       note='parse_next is a contract stub (consumes >= 1 byte, may throw)'))
+    def jsym(rx):
+        return core.csym(FAM, rx)
+    d6 = dict(MODE=6, PARSE_NEXT=SYM('parse_next'), PARSE_OBJECT=SYM('parse_object'), JSON_FROM_STRING=JSTR, JSON_TO_STRING=jsym('^' + J + r'JSON::to_string\[abi:cxx11\]\(\) const$'),
+              JSON_INDEX_STR=jsym('^' + J + r'JSON::operator\[\]\(std::__cxx11::basic_string'), JSON_ASSIGN_COPY=jsym('^' + J + r'JSON::operator=\(chaiscript::json::JSON const&\)'))
+    hs.append(Harness('J4.parse_object', FAM, ['^' + J + r'JSONParser::parse_object\('], 'c18_json.c', stubs=CUT + [J + r'JSONParser::parse_next\('],
+                      shapes=[dict(d6, N=n, _tag='N=%d' % n, _witness=('witness: input rejected',) + (('witness: input accepted',) if n >= 2 else ())) for n in ([1, 2, 3, 4] if tier == 'quick' else [1, 2, 3, 4, 5, 6])],
+                      opts=['--unwind', '8', '--unwindset', 'set_text.0:17,main.0:18,main.1:18,main.2:18,main.3:18,' + JSTR + '.0:18', '--no-array-field-sensitivity'], timeout=300, mem_gb=8, string_model=True, defines={'STRING_LITERALS_OPAQUE': 1}, inputs=['in', 'off', 'depth0'],
+                      note='parse_next is a contract stub (consumes >= 1 byte, may throw); JSON member insertion is a recorder'))
     return hs
 
 ASSUMPTIONS = ['std::string via the SSO-only model (texts <= 15 bytes)', 'JSON value constructors are recorders; runtime_error construction cut; ::isspace is the C locale table',
-               'J4: bounded native recursion follows by induction from: parse_next(depth) rejects depth > 512; containers parse elements at depth+1 (parse_object mirrors parse_array: same pattern, covered in thorough)']
+               'J4: bounded native recursion follows by induction from: parse_next(depth) rejects depth > 512; containers parse elements at depth+1 (J4.parse_array, J4.parse_object)']
 OUTSIDE = ['numbers: floating-point accuracy of parse_num<double>*pow', 'array/object round trip (std::variant of vector / QuickFlatMap of JSON: heap-recursive)', 'json_wrap type mapping']
